@@ -383,7 +383,11 @@ RestoreMonitors(r) ==
           {<<"RestoreFailed", <<b, r.res, r.mon_errors>> >>})
   \cup If(g.mode = "big" /\ judged /\ Complete(fs, b) /\ b \in (DOMAIN g.snap) \ g.partial /\ (r.res # "ok" \/ r.mon_errors # 0),
           {<<"RestoreFailed", <<b, r.res, r.mon_errors>> >>})
+  \* ("big" scenarios log contents above 64 bytes as length + digest, 68 bytes in all: an entry whose
+  \* address lies in such a block has no bytes the specification could compare)
   \cup If(judged /\ r.res = "ok" /\ AllReadable(fs, es) /\
+             ~(g.mode = "big" /\ \E i \in 1..Len(es) : \E j \in 1..Len(es[i].a) :
+                     es[i].a[j].h \in BlockNames(fs) /\ Len(fs.blocks[es[i].a[j].h].c) = 68) /\
              TreeSel(T, S, {}) # (IF plain THEN RestoreOf(fs, b) ELSE IF r.excl = <<>> THEN TreeOfEntries(fs, es) ELSE NoRoot(TreeOfEntries(fs, es))),
           {<<"RestoreDiffersFromListing", <<b, TreeDiff(IF plain THEN RestoreOf(fs, b) ELSE IF r.excl = <<>> THEN TreeOfEntries(fs, es) ELSE NoRoot(TreeOfEntries(fs, es)), TreeSel(T, S, {}))>> >>})
   \cup (IF g.damaged /\ plain /\ r.band >= 0 /\ r.dest # "nonempty" /\ ~r.panic /\ ~r.timeout
